@@ -1,9 +1,17 @@
 import RegexVerif.Sexp
+import RegexVerif.Model.Spec
+import RegexVerif.Driver.SpecIO
 
 namespace RegexVerif.Driver
-open RegexVerif Sexp
+open RegexVerif Sexp Spec
 
-/-- protocol lines with head `c01` (stub) -/
-def handleC01 (_args : List Sexp) : String := "(unimplemented)"
+/-- `(c01 find rtl start ngroups <pat> <env>)` → the specification's find result -/
+def handleC01 (args : List Sexp) : String :=
+  match args with
+  | [.atom "find", rtl, start, ng, p, e] =>
+    match rtl.bool?, start.nat?, ng.nat?, pat? p, env? e with
+    | some rtl, some start, some ng, some p, some e => renderResult ng (Spec.find e p rtl start)
+    | _, _, _, _, _ => "(bad-op)"
+  | _ => "(bad-op)"
 
 end RegexVerif.Driver
